@@ -47,9 +47,9 @@ Qed.
 (* ------------------------------------------------------------------ conformance *)
 Section ConfProofs.
   Variable classes : list cls.
-  Variable oc : option nat.
+  Variable dc : list nat.
   Notation inh := (inh classes).
-  Notation local := (local classes oc).
+  Notation local := (local classes dc).
   Notation n := (length classes).
 
   (* declarative conformance: some class reachable from the target over _tx_inh_by edges passes one of
@@ -81,7 +81,7 @@ Section ConfProofs.
       | [] => Some (false, v)
       | d :: r =>
         if mem_nat d v then go v r
-        else match dfs classes oc f v d with
+        else match dfs classes dc f v d with
              | None => None
              | Some (true, v') => Some (true, v')
              | Some (false, v') => go v' r
@@ -89,14 +89,14 @@ Section ConfProofs.
       end.
 
   Lemma dfs_S f v c :
-    dfs classes oc (S f) v c = if local c then Some (true, v) else dfs_go f (c :: v) (inh c).
+    dfs classes dc (S f) v c = if local c then Some (true, v) else dfs_go f (c :: v) (inh c).
   Proof. reflexivity. Qed.
 
   (* what a finished, unsuccessful search leaves in `visited` *)
   Definition closed_from (v v' : list nat) : Prop :=
     forall x, In x v' -> ~ In x v -> local x = false /\ incl (inh x) v'.
 
-  Lemma dfs_inv : forall f v c b v', dfs classes oc f v c = Some (b, v') ->
+  Lemma dfs_inv : forall f v c b v', dfs classes dc f v c = Some (b, v') ->
     (b = true -> Conf c) /\
     (b = false -> incl v v' /\ In c v' /\ closed_from v v').
   Proof.
@@ -112,7 +112,7 @@ Section ConfProofs.
           * intro E. destruct (Ht E) as [d' [Hd' Hc]]. exists d'. split; [right; exact Hd' | exact Hc].
           * intro E. destruct (Hf E) as [Hi [Hr Hcl]]. split; [exact Hi|]. split; [|exact Hcl].
             intros x [<-|Hx]; [apply Hi; apply mem_nat_In; exact Em | apply Hr; exact Hx].
-        + destruct (dfs classes oc f v0 d) as [[[|] v1]|] eqn:Ed; [| |discriminate].
+        + destruct (dfs classes dc f v0 d) as [[[|] v1]|] eqn:Ed; [| |discriminate].
           * inversion Hg; subst. split; [|discriminate]. intros _.
             exists d. split; [left; reflexivity|]. apply (IHf _ _ _ _ Ed). reflexivity.
           * destruct (proj2 (IHf _ _ _ _ Ed) eq_refl) as [Hi1 [Hd1 Hcl1]].
@@ -145,10 +145,10 @@ Section ConfProofs.
     - destruct (Hcl c Hin) as [_ Hs]. apply IH. apply Hs. exact Hd.
   Qed.
 
-  Lemma dfs_top_sound fuel t v' : dfs classes oc fuel [] t = Some (true, v') -> Conf t.
+  Lemma dfs_top_sound fuel t v' : dfs classes dc fuel [] t = Some (true, v') -> Conf t.
   Proof. intro H. apply (dfs_inv _ _ _ _ _ H). reflexivity. Qed.
 
-  Lemma dfs_top_complete fuel t v' : dfs classes oc fuel [] t = Some (false, v') -> ~ Conf t.
+  Lemma dfs_top_complete fuel t v' : dfs classes dc fuel [] t = Some (false, v') -> ~ Conf t.
   Proof.
     intros H Hc. destruct (proj2 (dfs_inv _ _ _ _ _ H) eq_refl) as [_ [Hin Hcl]].
     apply (closed_no_conf v') with (c := t); [|exact Hc|exact Hin].
@@ -185,7 +185,7 @@ Section ConfProofs.
     apply Nat.ltb_lt. apply Hwf. exact Hd.
   Qed.
 
-  Lemma dfs_total : forall f v c, c < n -> ~ In c v -> unv v <= f -> dfs classes oc f v c <> None.
+  Lemma dfs_total : forall f v c, c < n -> ~ In c v -> unv v <= f -> dfs classes dc f v c <> None.
   Proof.
     induction f as [|f IHf]; intros v c Hc Hn Hu.
     - pose proof (unv_cons c v Hc Hn). lia.
@@ -194,7 +194,7 @@ Section ConfProofs.
         destruct (mem_nat d v0) eqn:Em.
         - apply IHl; [intros x Hx; apply Hl; right; exact Hx | exact Hu0].
         - apply mem_nat_false in Em.
-          destruct (dfs classes oc f v0 d) as [[[|] v1]|] eqn:Ed.
+          destruct (dfs classes dc f v0 d) as [[[|] v1]|] eqn:Ed.
           + discriminate.
           + destruct (proj2 (dfs_inv _ _ _ _ _ Ed) eq_refl) as [Hi _].
             apply IHl; [intros x Hx; apply Hl; right; exact Hx|].
@@ -211,19 +211,19 @@ Section ConfProofs.
   Lemma unv_nil : unv [] = n.
   Proof. unfold unv. rewrite filter_all; [apply seq_length | reflexivity]. Qed.
 
-  Lemma conforms_opt_total t : conforms_opt classes oc t <> None.
+  Lemma conforms_opt_total t : conforms_opt classes dc t <> None.
   Proof.
     unfold conforms_opt. destruct (lt_dec t n) as [Hlt|Hge].
-    - destruct (dfs classes oc (S n) [] t) as [[b v]|] eqn:E; [discriminate|].
+    - destruct (dfs classes dc (S n) [] t) as [[b v]|] eqn:E; [discriminate|].
       exfalso. apply (dfs_total (S n) [] t Hlt); [intros [] | rewrite unv_nil; lia | exact E].
     - rewrite dfs_S. destruct (local t); [discriminate|].
       unfold Plain.inh. rewrite (proj2 (nth_error_None classes t)); [simpl; discriminate | lia].
   Qed.
 
-  Lemma conforms_spec t : conforms classes oc t = true <-> Conforms t.
+  Lemma conforms_spec t : conforms classes dc t = true <-> Conforms t.
   Proof.
     rewrite <- Conf_Conforms. unfold conforms. pose proof (conforms_opt_total t) as Ht.
-    unfold conforms_opt in *. destruct (dfs classes oc (S n) [] t) as [[[|] v]|] eqn:E.
+    unfold conforms_opt in *. destruct (dfs classes dc (S n) [] t) as [[[|] v]|] eqn:E.
     - split; [intros _; eapply dfs_top_sound; exact E | reflexivity].
     - split; [discriminate | intro Hc; exfalso; eapply dfs_top_complete; eassumption].
     - contradiction.
@@ -365,14 +365,14 @@ Section Resolve.
   (* the candidate set of the property: an object contained in the model (the root included) whose
      name is the reference text and whose class conforms to the target *)
   Definition Cand (n : list N) (t : nat) (p : list nat) (d : node) : Prop :=
-    at_path root p d /\ nname_of d = NameStr n /\ Conforms classes (Some (ncls_of d)) t.
+    at_path root p d /\ nname_of d = NameStr n /\ Conforms classes (direct_of classes (ncls_of d)) t.
 
   Definition NoCand n t : Prop := forall p d, ~ Cand n t p d.
   Definition UniqueCand n t p : Prop := exists d, Cand n t p d /\ forall p' d', Cand n t p' d' -> p' = p.
   Definition ManyCand n t : Prop := exists p1 d1 p2 d2, p1 <> p2 /\ Cand n t p1 d1 /\ Cand n t p2 d2.
 
   Lemma selector_spec n t d :
-    selector classes n t d = true <-> nname_of d = NameStr n /\ Conforms classes (Some (ncls_of d)) t.
+    selector classes n t d = true <-> nname_of d = NameStr n /\ Conforms classes (direct_of classes (ncls_of d)) t.
   Proof.
     unfold selector, selector_conj. cbn [forallb]. rewrite !andb_true_iff, (conforms_spec classes _ Hwf).
     unfold has_name, name_eq. destruct (nname_of d) as [|s|].
@@ -588,3 +588,30 @@ Lemma notunique_text classes n :
   error_text classes (ErrNotUnique n) =
   ([110;97;109;101;32]%N ++ n ++ [32;105;115;32;110;111;116;32;117;110;105;113;117;101;46]%N, None).
 Proof. unfold error_text, render, notunique_msg. cbn [flat_map]. rewrite !app_nil_r. reflexivity. Qed.
+
+(* ------------------------------------------------------------------ several loaded models *)
+(* the outcome for a reference of model i does not depend on the other loaded models *)
+Lemma same_model_only classes world world' i b r :
+  nth i world empty_model = nth i world' empty_model ->
+  resolve_in classes world i b r = resolve_in classes world' i b r.
+Proof. unfold resolve_in. intros ->. reflexivity. Qed.
+
+(* an object of another loaded model j that matches by name and type is not a candidate: if the referring
+   model i has no matching object, the reference falls through to builtins / Unknown object *)
+Lemma imported_not_candidate classes world i j b r p d :
+  wf_classes classes = true -> j <> i ->
+  Cand classes (nth j world empty_model) (rname r) (rcls r) p d ->
+  NoCand classes (nth i world empty_model) (rname r) (rcls r) ->
+  (forall q, resolve_in classes world i b r <> Resolved q) /\
+  (resolve_in classes world i b r = Builtin (rname r) \/
+   resolve_in classes world i b r = ErrUnknown (rname r) (rcls r)).
+Proof.
+  intros Hwf _ _ Hn. unfold resolve_in.
+  pose proof (resolve_ref_cases classes Hwf (nth i world empty_model) b r) as H.
+  destruct (resolve_ref classes (nth i world empty_model) b r) as [q|k|n|n t|].
+  - exfalso. eapply unique_not_none; eassumption.
+  - destruct H as [-> _]. split; [intros q E; discriminate | left; reflexivity].
+  - destruct H as [_ Hm]. exfalso. eapply many_not_none; eassumption.
+  - destruct H as [-> [-> _]]. split; [intros q E; discriminate | right; reflexivity].
+  - contradiction.
+Qed.
